@@ -420,10 +420,10 @@ def finish(ctx, family, monitor, by_sid, viols, events, coverage, assumptions, o
             sc = by_sid.get(tr) or by_sid.get(tr.split('/')[0])
             if sc is None:
                 continue
-            fam, o = sc.get('_fam', family), sc.get('_opt', opt)
+            fam, o, mon = sc.get('_fam', family), sc.get('_opt', opt), sc.get('_mon', monitor)
             hit = False
             for _ in range(retries):
-                rv, _ = run_and_judge(ctx, fam, monitor, [sc], opt=o, shards=1, consts=consts, binary=binary)
+                rv, _ = run_and_judge(ctx, fam, mon, [sc], opt=o, shards=1, consts=consts if mon == monitor else '', binary=binary)
                 if any(signature(x) == sig for x in rv):
                     hit = True
                     break
@@ -432,7 +432,7 @@ def finish(ctx, family, monitor, by_sid, viols, events, coverage, assumptions, o
                 h = hashlib.sha1((sig + str(sc.get('sid'))).encode()).hexdigest()[:12]
                 rp = os.path.join(rdir, '%s.json' % h)
                 with open(rp, 'w') as f:
-                    json.dump({'property': ctx.prop, 'family': fam, 'monitor': monitor, 'opt': o, 'consts': consts,
+                    json.dump({'property': ctx.prop, 'family': fam, 'monitor': mon, 'opt': o, 'consts': consts if mon == monitor else '',
                                'scenario': sc, 'violation': v}, f, indent=1)
                 confirmed.append((v, rp, len(vs)))
                 ok = True
